@@ -220,9 +220,12 @@ impl LanguageServer for Backend {
         let uri = params.text_document.uri;
         info!("did_close: {:?}", uri);
         if let Some(file_path) = self.uri_to_path(&uri) {
-            // Clean up cached data for this file to prevent unbounded memory growth
-            self.fixture_db.document_closed(&file_path);
+            // Clean up cached data for this file to prevent unbounded memory growth.
+            // The buffer goes first and the "open" mark second: a cached text without the
+            // mark would read, for a module that is not indexed (its buffer never parsed),
+            // as another thread's claim to analyse it.
             self.fixture_db.cleanup_file_cache(&file_path);
+            self.fixture_db.document_closed(&file_path);
             // Clean up URI cache entry
             self.uri_cache.remove(&file_path);
         }
